@@ -11,8 +11,8 @@ import (
 type roles struct {
 	done bool
 
-	InputPlugin, OutputPlugin, ActionPlugin                                *types.Named
-	InputCtl, OutputCtl, ActionCtl                                         *types.Named
+	InputPlugin, OutputPlugin, ActionPlugin                                    *types.Named
+	InputCtl, OutputCtl, ActionCtl                                             *types.Named
 	inCommit, outCommit, outOut, ctlIn, actDo, actPropagate, inPass, ctlSpread *types.Func
 
 	notifySites []ssa.CallInstruction // invoke sites of InputPlugin.Commit outside implementations of it
